@@ -288,6 +288,46 @@ def run(ctx, repo):
         ctx.finding('R1', '%s::score::ESAA override condition' % ATH, ATH, over[0].lineno,
                     'the ESAA override is applied under %r, not only for M-800 with the esaa option' % cond)
 
+    # ---- R13 no points are returned before the age factor has been worked out: the formula is evaluated on the mark AFTER the age
+    # factor is applied, so a shortcut that answers from the raw mark (a mark on the wrong side of Z scores 0) is wrong for a master
+    # whose adjusted mark is on the right side
+    ctx.rule('R13', 'every return of points in score() comes after the age factor has been determined (None for an unknown pair aside)')
+    RL0 = score_roles(score)
+    agev = RL0['age']
+    age_defs = [n for n in ast.walk(score) if isinstance(n, (ast.Assign, ast.AnnAssign, ast.AugAssign))
+                and any(isinstance(t, ast.Name) and t.id == agev for t in (n.targets if isinstance(n, ast.Assign) else [n.target]))]
+    if age_defs:
+        first_def = min(n.lineno for n in age_defs)
+        early = [r for r in ast.walk(score) if isinstance(r, ast.Return) and r.value is not None
+                 and not (isinstance(r.value, ast.Constant) and r.value.value is None) and r.lineno < first_def]
+        # in a chain of arms each arm may define the factor itself: a return is early when no definition precedes it in its own arm either
+        def _has_def_before(r):
+            p_ = getattr(r, '_parent', None)
+            c_ = r
+            while p_ is not None and p_ is not score:
+                for nm_ in ('body', 'orelse', 'finalbody'):
+                    blk = getattr(p_, nm_, None)
+                    if isinstance(blk, list) and c_ in blk:
+                        for st_ in blk[:blk.index(c_)]:
+                            if any(x in age_defs for x in ast.walk(st_)):
+                                return True
+                c_, p_ = p_, getattr(p_, '_parent', None)
+            blk = score.body
+            if c_ in blk:
+                for st_ in blk[:blk.index(c_)]:
+                    if any(x in age_defs for x in ast.walk(st_)):
+                        return True
+            return False
+        early = [r for r in ast.walk(score) if isinstance(r, ast.Return) and r.value is not None
+                 and not (isinstance(r.value, ast.Constant) and r.value.value is None) and not _has_def_before(r)]
+        if early:
+            r0 = early[0]
+            ctx.finding('R13', '%s::score::points returned before the age factor' % ATH, ATH, r0.lineno,
+                        'score() answers `%s` before %s is determined: the points must be computed from the mark after the age factor is applied '
+                        '(a master whose raw mark is on the wrong side of the zero-point mark can still score)' % (unparse(r0), agev),
+                        'a mark just beyond Z with an age whose factor brings it back')
+        else:
+            ctx.ok('R13', 'every return of points follows the determination of %s' % agev)
     # ---- R2
     arms, chain = dispatch_arms(score)
     if arms is None:
